@@ -254,6 +254,52 @@ theorem closed_pool_owns_nothing (cfg : Cfg) (ops : List Op)
     · exact .inr ⟨g.2.1, g1.2⟩
     · exact .inr ⟨g.2.1, g1.2.2⟩
 
+/-! ### connection-level ownership, for callers that follow the Take/Put protocol
+
+`State.held v` (ghost) says that the callers hold connection `v`: it was never put, or `Take`
+returned it after its last `Put`.  `State.proper` (ghost) says that so far every `Put` was of a
+connection its caller held — the protocol of `poolConn.Invoke` / `NewStream`, which put only what
+`Take` or `dial` gave them. -/
+
+/-- A connection the callers hold is out of the pool's reach: no entry for it is linked (so no
+    eviction and no `Close` will close it) and none has a fired timer whose callback has yet to close
+    it.  Hence a connection is never both handed out and about to be closed by the pool. -/
+theorem held_connection_out_of_reach (cfg : Cfg) (ops : List Op) (hp : (reach cfg ops).proper = true)
+    (v : Nat) (hv : (reach cfg ops).held v = true) (e : Nat) (he : e < (reach cfg ops).next)
+    (hev : ((reach cfg ops).ents e).val = v) :
+    e ∉ (reach cfg ops).order.items ∧ ((reach cfg ops).ents e).exp ≠ .fired := by
+  have K := (reach_inv cfg ops).conn hp
+  have := K.heldFree e he (by rw [hev]; exact hv)
+  unfold Live at this
+  exact ⟨fun h => this (.inl h), fun h => this (.inr h)⟩
+
+/-- For such callers the pool has at most one live entry (cached, or fired and not yet closed) per
+    connection: a connection is never cached twice. -/
+theorem one_live_entry_per_connection (cfg : Cfg) (ops : List Op) (hp : (reach cfg ops).proper = true)
+    (e1 e2 : Nat) (h1 : e1 < (reach cfg ops).next) (h2 : e2 < (reach cfg ops).next)
+    (hv : ((reach cfg ops).ents e1).val = ((reach cfg ops).ents e2).val)
+    (l1 : Live (reach cfg ops) e1) (l2 : Live (reach cfg ops) e2) : e1 = e2 :=
+  ((reach_inv cfg ops).conn hp).unique e1 e2 h1 h2 hv l1 l2
+
+/-- `Take` gives the callers a connection they did not hold (exactly one caller holds it afterwards) -/
+theorem take_returns_unheld (cfg : Cfg) (ops : List Op) (hp : (reach cfg ops).proper = true) (k e v : Nat)
+    (h : (step cfg (reach cfg ops) (.take k)).2 = .taken e v) : (reach cfg ops).held v = false := by
+  have hs := take_sound cfg ops k e v h
+  obtain ⟨hv, _, hlk, _⟩ := hs
+  have hlt := (reach_inv cfg ops).struct.lt_of_mem hlk
+  cases hh : (reach cfg ops).held v with
+  | false => rfl
+  | true =>
+    exact absurd hlk (held_connection_out_of_reach cfg ops hp v hh e hlt hv.symm).1
+
+/-- non-vacuity: a protocol-following run in which a caller holds a connection taken from the pool -/
+example : (reach ⟨1, 0, true⟩ [.put 0 0, .put 0 1, .take 0]).proper = true ∧
+          (reach ⟨1, 0, true⟩ [.put 0 0, .put 0 1, .take 0]).held 1 = true ∧
+          (reach ⟨1, 0, true⟩ [.put 0 0, .put 0 1, .take 0]).held 0 = false := by decide
+
+/-- … and a run that breaks the protocol (the same connection put twice) is recognised as such -/
+example : (reach ⟨0, 0, false⟩ [.put 0 0, .put 0 0]).proper = false := by decide
+
 /-! ### remove_idempotent -/
 
 /-- Unlinking is idempotent (the `removed` guard of `list.removeEntry`), in every state. -/
